@@ -146,16 +146,32 @@ func guarded(fn func()) (out string, detail string) {
 		fn()
 		done <- "ok"
 	}()
-	select {
-	case o := <-done:
+	finish := func(o string) (string, string) {
 		if o == "panic" {
 			return o, <-det
 		}
 		return o, ""
-	case <-time.After(3 * time.Second):
-		return "timeout", ""
 	}
+	select {
+	case o := <-done:
+		return finish(o)
+	case <-time.After(3 * time.Second):
+	}
+	// Not back after 3 s: on a heavily loaded machine that can be scheduling delay. Give the call more time
+	// before calling it blocked - unless calls have already been confirmed blocked several times in this run
+	// (a systematic deadlock), in which case the short deadline stands.
+	if confirmedTimeouts < 3 {
+		select {
+		case o := <-done:
+			return finish(o)
+		case <-time.After(27 * time.Second):
+		}
+	}
+	confirmedTimeouts++
+	return "timeout", ""
 }
+
+var confirmedTimeouts int
 
 func gweis(b []int) []forkchoice.Gwei {
 	out := make([]forkchoice.Gwei, len(b))
